@@ -711,9 +711,166 @@ pub fn policy_name(k: PolicyKind) -> &'static str {
     }
 }
 
+/// Counts around which fixed-width counters and buffers change behaviour.
+const BOUNDARY_COUNTS: &[u64] = &[127, 128, 129, 255, 256, 257, 300, 511, 512, 513];
+
+/// A wide batch: hundreds of paths, most of them failing (missing) and a few tiny good files.
+/// What matters here is aggregation over many results, not contents.
+fn generate_c18_wide(seed: u64, run: u64, rng: &mut Rng, tier: Tier, stats: &mut Stats) -> Generated {
+    let failing = if tier == Tier::Thorough && rng.chance(1, 40) {
+        *rng.pick(&[65_535u64, 65_536, 65_537])
+    } else if rng.chance(3, 4) {
+        *rng.pick(BOUNDARY_COUNTS)
+    } else {
+        rng.range(100, 600)
+    } as usize;
+    let good = rng.below(6) as usize;
+    let mode = match rng.below(4) {
+        0 => Mode::Check,
+        1 => Mode::Stdout,
+        _ => Mode::Files,
+    };
+    let opts = gen_options(rng, None);
+    let mut case = base_case("C18", seed, run, &opts, mode, vec![]);
+    let mut order: Vec<bool> = vec![false; failing];
+    order.extend(vec![true; good]);
+    rng.shuffle(&mut order);
+    // in check mode a failing file can also be an existing, unformatted one
+    let unformatted_fails = mode == Mode::Check && rng.chance(1, 2);
+    for (i, is_good) in order.iter().enumerate() {
+        let path = format!("simfs:/w{}/f{i}.pas", i % 7);
+        if *is_good {
+            case.files.push(SimFile::new(&path, b"a;\n".to_vec()));
+        } else if unformatted_fails {
+            case.files.push(SimFile::new(&path, b"a ;".to_vec()));
+        } else {
+            let mut f = SimFile::new(&path, vec![]);
+            f.exists = false;
+            case.files.push(f);
+        }
+    }
+    let n = case.files.len();
+    case.workers = rng.range(1, 8) as usize;
+    case.chunks = gen_partition(rng, n);
+    case.policy = gen_policy(rng);
+    *stats.by_mode.entry(mode.name().to_string()).or_insert(0) += 1;
+    *stats.by_policy.entry(policy_name(case.policy.kind).to_string()).or_insert(0) += 1;
+    *stats.by_workers.entry(case.workers.to_string()).or_insert(0) += 1;
+    stats.probe("c18_wide_batch");
+    stats.shapes.insert(format!("wide failing={failing} good={good} K={} mode={}", case.workers, mode.name()));
+    let describe = format!(
+        "run {run}: wide batch, {failing} failing + {good} good files, K={}, {} groups, policy {}, mode {}",
+        case.workers,
+        case.chunks.len(),
+        policy_name(case.policy.kind),
+        mode.name()
+    );
+    Generated {
+        timing_sensitive: false,
+        cases: vec![case],
+        describe,
+    }
+}
+
+/// One unit built from a skeleton (decided by `skeleton_seed`) whose identifiers are drawn with
+/// lengths decided by `variant`: sibling units agree line for line and token for token in
+/// structure but need different wrapping.
+fn sibling_unit(name: &str, skeleton_seed: u64, variant: u64, procs: usize) -> String {
+    let mut sk = Rng::new(skeleton_seed);
+    let mut vr = Rng::new(crate::rng::mix(&[skeleton_seed, variant, 77]));
+    let max_len = match variant % 3 {
+        0 => 6,
+        1 => 28,
+        _ => 64,
+    };
+    let ident = |vr: &mut Rng, stem: &str| -> String {
+        let extra = vr.range(0, max_len) as usize;
+        let mut s = stem.to_string();
+        const FILL: &str = "AndOnAndOnWithMoreWordsThatGoOnForeverAndEverUntilTheLineIsFull";
+        s.push_str(&FILL[..extra.min(FILL.len())]);
+        s
+    };
+    let mut out = format!("unit {name};\n\ninterface\n\nimplementation\n\n");
+    for p in 0..procs {
+        out.push_str(&format!("procedure Proc{p}(AValue: Integer);\nbegin\n"));
+        for _ in 0..sk.range(2, 7) {
+            let n = sk.range(100, 999);
+            let call = format!("{}({}, {n})", ident(&mut vr, "Do"), ident(&mut vr, "AValue"));
+            match sk.below(8) {
+                0 | 1 => out.push_str(&format!("  if AValue > {n} then\n    {call};\n")),
+                2 => out.push_str(&format!("  for I := 0 to {n} do\n    {call};\n")),
+                3 => out.push_str(&format!("  while {} < {n} do\n    {call};\n", ident(&mut vr, "Cur"))),
+                4 => out.push_str(&format!("  if AValue > {n} then\n    {call}\n  else\n    {call};\n")),
+                5 => out.push_str(&format!("  Run(procedure begin {call}; end);\n")),
+                6 => out.push_str(&format!("  if AValue > {n} then begin\n    {call};\n    {call};\n  end;\n")),
+                _ => out.push_str(&format!("  {} := {} + AValue * {n};\n", ident(&mut vr, "Total"), ident(&mut vr, "Total"))),
+            }
+        }
+        out.push_str("end;\n\n");
+    }
+    out.push_str("end.\n");
+    out
+}
+
+/// Sibling units of the same skeleton, from tiny to very large, processed one after the other
+/// by the same worker: results keyed on position rather than content must not leak between
+/// files, whatever the size of the previous one.
+fn generate_c18_siblings(seed: u64, run: u64, rng: &mut Rng, stats: &mut Stats) -> Generated {
+    // log-uniform number of routines: 1 .. 2048
+    let procs = (1u64 << rng.below(12)) as usize + rng.below(1 << 4) as usize;
+    let procs = procs.min(2200);
+    let skeleton_seed = rng.next_u64();
+    let n = rng.range(2, 3) as usize;
+    let mode = if rng.chance(1, 5) { Mode::Check } else { Mode::Files };
+    let opts = gen_options(rng, None);
+    let mut case = base_case("C18", seed, run, &opts, mode, vec![]);
+    let mut variants: Vec<u64> = (0..3).collect();
+    rng.shuffle(&mut variants);
+    for (i, v) in variants.iter().take(n).enumerate() {
+        // a sibling may be a shorter prefix of the skeleton
+        let my_procs = if rng.chance(1, 3) { (procs / 2).max(1) } else { procs };
+        let text = sibling_unit("Sibling", skeleton_seed, *v, my_procs);
+        case.files.push(SimFile::new(&format!("simfs:/sib/unit{i}.pas"), text.into_bytes()));
+    }
+    if rng.chance(1, 2) {
+        case.files.push(SimFile::new("simfs:/sib/small.pas", b"procedure P;\nbegin\n  if A then\n    B(1);\nend;\n".to_vec()));
+    }
+    let total = case.files.len();
+    case.workers = rng.range(1, 3) as usize;
+    case.chunks = if rng.chance(2, 3) { vec![total] } else { gen_partition(rng, total) };
+    case.policy = gen_policy(rng);
+    stats.max_bytes = stats.max_bytes.max(case.files.iter().map(|f| f.bytes.len()).max().unwrap_or(0) as u64);
+    *stats.by_mode.entry(mode.name().to_string()).or_insert(0) += 1;
+    *stats.by_policy.entry(policy_name(case.policy.kind).to_string()).or_insert(0) += 1;
+    *stats.by_workers.entry(case.workers.to_string()).or_insert(0) += 1;
+    stats.probe("c18_sibling_units_batch");
+    if procs >= 1024 {
+        stats.probe("c18_sibling_units_over_1000_routines");
+    }
+    stats.shapes.insert(format!("siblings procs~2^{} n={n} K={} chunks={:?}", 63 - (procs as u64).leading_zeros(), case.workers, case.chunks));
+    let describe = format!(
+        "run {run}: {n} sibling units of {procs} routines (same skeleton, different identifier lengths), K={}, chunks {:?}, policy {}, mode {}",
+        case.workers,
+        case.chunks,
+        policy_name(case.policy.kind),
+        mode.name()
+    );
+    Generated {
+        timing_sensitive: false,
+        cases: vec![case],
+        describe,
+    }
+}
+
 pub fn generate_c18(seed: u64, run: u64, corpus: &Corpus, tier: Tier, stats: &mut Stats) -> Generated {
     let p = params("C18", tier);
     let mut rng = Rng::derive(seed, &[prop_tag("C18"), run]);
+    if rng.chance(1, 25) {
+        return generate_c18_wide(seed, run, &mut rng, tier, stats);
+    }
+    if rng.chance(1, 40) {
+        return generate_c18_siblings(seed, run, &mut rng, stats);
+    }
     let n = match rng.below(10) {
         0 => 1,
         1..=3 => rng.range(2, 3) as usize,
